@@ -58,6 +58,10 @@ pub fn run_c12(cfg: &Cfg) {
         (r"(\w+)(?=\d)(?=\d\d)(?:\B.){2}", "a12"),
     ];
     let compiled: Vec<(Regex, &str)> = cases.iter().map(|(p, t)| (Regex::new(p).unwrap(), *t)).collect();
+    // the number of groups (group 0 included) of each case, written down here rather than asked of the crate: `check`
+    // must reject references past it whatever `captures_len` says
+    let ngroups: Vec<usize> = vec![3, 3, 3, 12, 3, 4, 2];
+    assert_eq!(ngroups.len(), cases.len());
     let expanders = [("d", Expander::default()), ("p", Expander::python())];
     for (i, tpl) in templates.iter().enumerate() {
         if i % cfg.nshards != cfg.shard {
@@ -134,7 +138,7 @@ pub fn run_c12(cfg: &Cfg) {
                         o => format!("E:{}", o),
                     },
                 };
-                s.line(&format!("check\t{}\t{}\t{}\t{}", xn, hex(tpl), re.captures_len(), names.join(",")), &ans);
+                s.line(&format!("check\t{}\t{}\t{}\t{}", xn, hex(tpl), ngroups[k], names.join(",")), &ans);
             }
         }
     }
